@@ -47,6 +47,19 @@ CLAIMED['C05'] = (
     'Bounded (3-4 RDMs x 3-6 conditions); leakage judged by bit-identity under perturbation with fit_regress, fit_select, '
     'fit_interpolate, fit_mock; trusts harness/rdmstore.py projection.', '4/C05')
 
+CLAIMED['C12'] = (
+    'TLA+ heap model Alias.tla (Produce / MutateResult / MutateSource, Frame as action property); catalogue of public '
+    'callables by introspection handed to TLC as JSON; TLC enumerates every applicable (producer, mutator, side, target) '
+    'schedule; fingerprint histories of the executed schedules validated by Trace_Alias.tla',
+    'TLC enumerates all schedules over the discovered catalogue (about 160 of 195 public callables can be driven by the '
+    'argument factories; the rest is listed as uncovered) and checks Frame on the model; every schedule is executed on '
+    'real objects from a fresh world and the sha-fingerprints of ALL tracked objects and result components before, '
+    'after the call and after the in-place operation / array write are validated by the trace specification: a call may '
+    'change nothing it was given, a mutation may change only its own target.',
+    'One argument tuple per callable per seed (thorough: 3 seeds); fingerprints exclude library-managed index entries; '
+    'accessors documented to expose internal storage are exempt from array-write independence; sharing among the '
+    'components of one result is not judged.', '4/C12')
+
 NOT_YET = {
 }
 
